@@ -2,8 +2,13 @@ package main
 
 import (
 	"encoding/hex"
+	"encoding/json"
 	"fmt"
+	"math/big"
 	"math/bits"
+	"os"
+	"runtime/debug"
+	"sort"
 	"time"
 
 	"github.com/cosmos/cosmos-proto/internal/verifh/vschema"
@@ -235,5 +240,115 @@ func runRuntime(cfg *Cfg) {
 			skipCase(bs, i)
 		}
 	}
+	// records whose encoded length sits on an integer-width boundary (2^31, 2^32) or next to an integer constant of
+	// the runtime package's source (VERIF_SRC_CONSTS, written by the translator run): the buffers are allocated but
+	// never touched beyond the few header / trailer bytes, so they cost address space, not memory
+	hugeSizes := map[uint64]bool{}
+	for _, c := range []uint64{1 << 31, 1 << 32} {
+		for d := uint64(0); d < 3; d++ {
+			hugeSizes[c-1+d] = true
+		}
+	}
+	for _, c := range srcConsts("runtime") {
+		if c.IsUint64() && c.Uint64() >= 1<<16 && c.Uint64() <= 1<<33 {
+			for d := uint64(0); d < 4; d++ {
+				hugeSizes[c.Uint64()-1+d] = true
+			}
+		}
+	}
+	var hs []uint64
+	for h := range hugeSizes {
+		hs = append(hs, h)
+	}
+	sort.Slice(hs, func(i, j int) bool { return hs[i] < hs[j] })
+	// one allocation for all sizes (fresh from the OS, so the Go runtime does not clear it); every case restores the
+	// bytes it wrote
+	var hugeBuf []byte
+	func() {
+		defer func() {
+			if e := recover(); e != nil {
+				out.Count("skip_huge_alloc_failed")
+			}
+		}()
+		if len(hs) > 0 {
+			hugeBuf = make([]byte, hs[len(hs)-1]+2)
+		}
+	}()
+	for _, total := range hs {
+		if hugeBuf == nil {
+			break
+		}
+		for shape := 0; shape < 2; shape++ {
+			// shape 0: one length-delimited record of `total` bytes; shape 1: a group of `total` bytes holding one
+			func() {
+				defer func() {
+					if e := recover(); e != nil {
+						out.Count("skip_huge_alloc_failed")
+					}
+				}()
+				buf := hugeBuf[: total+2 : total+2]
+				defer func() {
+					for i := 0; i < 16; i++ {
+						buf[i] = 0
+					}
+					buf[total-1], buf[total], buf[total+1] = 0, 0, 0
+				}()
+				var hdr []byte
+				inner := total
+				if shape == 1 {
+					hdr = protowire.AppendTag(hdr, 7, protowire.StartGroupType)
+					inner = total - 2
+				}
+				// payload length p with len(tag)+len(varint(p))+p == inner
+				p := inner - 2
+				for 1+uint64(protowire.SizeVarint(p))+p > inner {
+					p--
+				}
+				if 1+uint64(protowire.SizeVarint(p))+p != inner {
+					return
+				}
+				hdr = protowire.AppendTag(hdr, 1, protowire.BytesType)
+				hdr = protowire.AppendVarint(hdr, p)
+				copy(buf, hdr)
+				if shape == 1 {
+					buf[total-1] = byte(7<<3 | 4)
+				}
+				buf[total], buf[total+1] = 0x08, 0x01
+				desc := fmt.Sprintf("skip-huge total=%d shape=%d header=%s", total, shape, hex.EncodeToString(hdr))
+				out.Watch("C15", "skip-hang", "runtime.Skip", desc, 120*time.Second)
+				var n int
+				var err error
+				pn, msg := guard(func() { n, err = runtime.Skip(buf) })
+				out.Unwatch()
+				_, _, want := protowire.ConsumeField(buf)
+				out.Count("skip_huge_records")
+				out.Case(desc, true)
+				if pn {
+					out.Violate("C15", "skip-panic", "Skip panicked on a huge record: "+msg, desc)
+				} else if want > 0 && (err != nil || n != want) {
+					out.Violate("C15", "skip-len", fmt.Sprintf("Skip=(%d,%v) protowire.ConsumeField=%d on a record of %d bytes (buffer allocated, payload untouched)", n, err, want, total), desc)
+				}
+			}()
+		}
+	}
+	hugeBuf = nil
+	debug.FreeOSMemory()
 	_ = bits.Len64
+}
+
+// srcConsts returns the integer constants that occur in the source of one package of the working tree, as
+// reported by the translator run of this check (none when the file is absent).
+func srcConsts(dir string) []*big.Int {
+	var m map[string][]string
+	b, err := os.ReadFile(os.Getenv("VERIF_SRC_CONSTS"))
+	if err != nil || json.Unmarshal(b, &m) != nil {
+		return nil
+	}
+	var out []*big.Int
+	for _, s := range m[dir] {
+		if v, ok := new(big.Int).SetString(s, 10); ok {
+			out = append(out, v)
+		}
+	}
+	return out
 }
